@@ -436,10 +436,10 @@ def run_bounded(rep: Report, tier: str) -> None:
         items = [(i, o, None, 0, False) for i, o in scope.networks(2, 4, 3)]
         part("einsum 2 operands: Net(2,4,3) x all sizes {1,2,3}", _work_einsum, items, True,
              "all 8828 canonical equations over <= 4 symbols rank <= 3, every size assignment from {1,2,3}", chunk=8)
-        samp = _sample_two_operand(5, 4, 120000, rng)
+        samp = _sample_two_operand(5, 4, 250000, rng)
         items = [(i, o, 6, rng.randrange(2**30), False) for i, o in samp]
         part("einsum 2 operands: sample of Net(2,5,4)", _work_einsum, items, False,
-             "120000 equations x <= 6 size assignments sampled from {1,2,3}", chunk=8)
+             "250000 equations x <= 6 size assignments sampled from {1,2,3}", chunk=8)
 
     # ---- tensordot ---------------------------------------------------------
     mr = 3 if quick else 4
